@@ -2,7 +2,7 @@
 checked natively on a stated finite grid. Labelled *bounded* in the evidence and never counted as proved; a failure is a real
 failing input and is reported as a violation with the program as replay."""
 from contracts.replays import HDR
-from contracts import replays, replays2
+from contracts import replays, replays2, replays3
 
 CZT = HDR + '''
 int main() { for (int n = 1; n <= 24; ++n) for (int m : {1, 2, n, n + 3, 2 * n + 1}) for (int c = 0; c < 4; ++c) {
@@ -49,3 +49,16 @@ STANDINS = {
              replays.plan_cache_history({'name': 'create_rfft_plan', 'model': {}})), ('same, complex plans', 'lengths 2..130', replays.plan_cache_history({'name': 'create_fft_plan', 'model': {}}))],
     'C18': [('finddelay / gccphat recover an integer shift of white noise', 'len in {128, 200, 1000}, |d| <= len/4, noise 60 dB down, fs in {1, 8000}', DELAYS)],
 }
+
+_O = {'name': '', 'model': {}}
+for _p, _name, _bound, _f in (
+        ('C08', 'FIRInterpolator / FIRDecimator against the zero-stuff, filter, decimate chain', 'rate 2..5, symmetric coefficient vectors of every length 2..4R+3, 40 input (output) frames', replays3.multirate_chain),
+        ('C13', 'welch against the averaged windowed periodograms; mscohere of a scaled copy', 'real input, window lengths and overlaps of the program, levels 1..1e-6', replays3.spectral_estimates),
+        ('C14', 'HilbertFilter / hilbert against the analytic-signal definition', 'a mid-band tone, odd and even filter lengths', replays3.analytic_signal),
+        ('C16', 'sort / issorted / rank correlation against their definitions', 'every pattern of small inputs enumerated by the program', replays3.order_statistics),
+        ('C17', 'norm, rms, mean, stddev against their sums', 'p = 1..5, mixed-sign data', replays3.reductions),
+        ('C18', 'PreambleDetector after reset()', 'one 31-sample Zadoff-Chu preamble, a loud previous stream, a quiet stream and a stream with the preamble', replays3.detector_reset),
+        ('C19', 'rng(seed) replays the stream on the real <random>, whatever was drawn before', 'odd and even block lengths, two threads', replays3.random_streams),
+        ('C19', 'snr / sinad / thd do not depend on the scale of the signal', 'one tone set, levels 1..1e-9', replays3.snr_scale_invariance),
+        ('C20', 'compressor attack follows the configured time constant', 'fs = 1000, time constants including non-integer sample counts', replays3.dynamics_time_constants)):
+    STANDINS.setdefault(_p, []).append((_name, _bound, _f(_O)))
